@@ -20,6 +20,66 @@ mod metrics;
 mod search;
 mod table;
 
+/// Verification hooks (only compiled with `--cfg inkayaku_verif`).
+#[cfg(inkayaku_verif)]
+pub mod verif {
+    use inkayaku_board::Bitboard;
+    use inkayaku_board::constants::ZobristHash;
+    use inkayaku_uci::Score;
+
+    use crate::engine::heuristic::Heuristic;
+    use crate::engine::heuristic::simple::SimpleHeuristic;
+    use crate::engine::search::EngineOptions;
+    use crate::engine::table::HashTable;
+    use crate::engine::zobrist_history::ZobristHistory;
+
+    pub use crate::engine::search::verif_control::{abort_at, poll_period, set_abort_at, set_poll_period};
+
+    /// The private static evaluation (white's point of view), as the search calls it.
+    pub fn static_eval(bitboard: &Bitboard, legal_moves_remaining: bool) -> i32 {
+        SimpleHeuristic.evaluate(bitboard, bitboard.calculate_zobrist_pawn_hash(), legal_moves_remaining)
+    }
+
+    pub fn score_from_value(value: i32, bitboard: &Bitboard) -> Score {
+        SimpleHeuristic.score_from_value(value, bitboard)
+    }
+
+    pub fn is_checkmate(value: i32) -> bool {
+        SimpleHeuristic.is_checkmate(value)
+    }
+
+    /// (win_score, draw_score, MAX_FULL_MOVES, MAX_HALF_MOVES, default contempt factor)
+    pub fn constants() -> (i32, i32, i32, u32, i32) {
+        (SimpleHeuristic.win_score(), SimpleHeuristic.draw_score(), <SimpleHeuristic as Heuristic>::MAX_FULL_MOVES, <SimpleHeuristic as Heuristic>::MAX_HALF_MOVES, EngineOptions::default().contempt_factor)
+    }
+
+    /// (white tables, black tables) as [stage][piece - 1][square].
+    pub fn piece_square_tables() -> ([[[i32; 64]; 6]; 3], [[[i32; 64]; 6]; 3]) {
+        crate::engine::heuristic::simple::verif_tables()
+    }
+
+    /// Handle on the private repetition history.
+    #[derive(Default)]
+    pub struct History(ZobristHistory);
+
+    impl History {
+        pub fn set(&mut self, index: u16, zobrist_hash: ZobristHash) { self.0.set(index, zobrist_hash) }
+        pub fn count_repetitions(&self, start_index: u16, halfmove_clock: u16) -> usize { self.0.count_repetitions(start_index, halfmove_clock) }
+    }
+
+    /// Handle on the private keyed table behind the transposition table.
+    pub struct Table(HashTable<ZobristHash, u64>);
+
+    impl Table {
+        pub fn new(capacity: usize) -> Self { Self(HashTable::new(capacity)) }
+        pub fn put(&mut self, key: ZobristHash, value: u64) { self.0.verif_put(key, value) }
+        pub fn get(&self, key: ZobristHash) -> Option<u64> { self.0.verif_get(key) }
+        pub fn clear(&mut self) { self.0.verif_clear() }
+        pub fn len(&self) -> usize { self.0.verif_len() }
+        pub fn load_factor(&self) -> f32 { self.0.verif_load_factor() }
+    }
+}
+
 pub struct Engine<T: UciTx + Send + Sync + 'static> {
     uci_tx: Arc<T>,
     debug: bool,
@@ -39,6 +99,15 @@ impl<T: UciTx + Send + Sync + 'static> Engine<T> {
         thread::spawn(move || {
             Search::new(uci_tx, search_rx, SimpleHeuristic, MvvLvaMoveOrder, EngineOptions { debug, ..EngineOptions::default() }).idle();
         })
+    }
+}
+
+#[cfg(inkayaku_verif)]
+impl<T: UciTx + Send + Sync + 'static> Engine<T> {
+    /// Verification hook: ask the search thread to report the FEN of the board it holds (as a `debug` message `verif-fen <fen>`).
+    #[allow(clippy::unwrap_used)]
+    pub fn verif_dump_fen(&self) {
+        self.search_tx.send(SearchMessage::VerifDumpFen).unwrap();
     }
 }
 
